@@ -128,7 +128,7 @@ func RunSelfGuard(conf core.Config) *core.Result {
 						}
 						if reaches {
 							res.Add(core.Finding{Rule: "MAT.selfguard", Key: fmt.Sprintf("MAT.selfguard|%s|%s", name, types.ExprString(t)), Pos: core.Pos(t.Pos()), Func: name,
-								Msg: fmt.Sprintf("the identity test %s is evaluated after the receiver was rewritten at %s: the special case for an operand that is the receiver itself is then taken for a value whose header no longer describes the storage it had", types.ExprString(t), core.Pos(st.Pos())),
+								Msg:  fmt.Sprintf("the identity test %s is evaluated after the receiver was rewritten at %s: the special case for an operand that is the receiver itself is then taken for a value whose header no longer describes the storage it had", types.ExprString(t), core.Pos(st.Pos())),
 								Path: []string{"store at " + core.Pos(st.Pos()), "test at " + core.Pos(t.Pos())}})
 							break
 						}
